@@ -473,7 +473,7 @@ void textbundle_write_wrapper(const char * filepath, DString * body, mmd_engine 
 		// Failed to open file
 		perror(filepath);
 	} else {
-		fwrite(&(result->str), result->currentStringLength, 1, output_stream);
+		fwrite(result->str, result->currentStringLength, 1, output_stream);
 		fclose(output_stream);
 	}
 
